@@ -49,13 +49,20 @@ def gen(c):
         if rng.random() < 0.5:
             s2 = dict(name="tail", symmetry=symc, mesh=dict(M.random_spec(rng, half=half, nx=2, ny=3), offset=[6.0, 0.0, 0.6]), with_viscous=True, with_wave=False)
             case["surfaces"].append(s2)
+        rot = bool(c["seed"] % 2 == 1)
+        if rot:
+            # a steady body rate that is on at some design points and exactly zero at the others
+            case["rotational"] = True
+            case["flow"]["omega"] = [0.0, 0.0, 0.0]
         for k in range(c["npoints"]):
             pts.append({"alpha": float(np.round(rng.uniform(0, 8), 2)), "Mach_number": [0.55, 0.93, 0.7, 0.9][k % 4], "v": float(rng.uniform(100, 250)),
                         "wing.twist_cp": [float(x) for x in np.round(rng.uniform(-3, 3, 2), 2)], "cg": [float(x) for x in np.round(rng.uniform(-1, 1, 3), 2)]})
+            if rot:
+                pts[-1]["omega"] = [0.0, 0.0, 0.0] if k % 2 else [float(x) for x in np.round(rng.uniform(-0.3, 0.3, 3), 3)]
         if flat:
             pts[-1].update({"alpha": 0.0, "wing.twist_cp": [0.0, 0.0]})
         of = ["aero.CL", "aero.CD", "aero.CM", "aero.total_perf.moment.M", "aero.wing_perf.CDw", "aero.wing_perf.CDv"]
-        wrt = ["alpha", "Mach_number", "wing.twist_cp", "v", "cg", "re"]
+        wrt = ["alpha", "Mach_number", "wing.twist_cp", "v", "cg", "re"] + (["omega"] if rot else [])
         return "aero", case, pts, of, wrt
     fem = "tube" if rng.integers(2) else "wingbox"
     if c.get("force_wingbox_sym"):
